@@ -142,6 +142,15 @@ func (g *G) randTy(d int, m string) *Ty {
 	}
 }
 
+// alias: after `<y, z> <- recv self`, `case self (l<z> => ...)` or `z <- shift self` both `z`
+// and `self` denote the provider; now and then the continuation spells it `z`.
+func (g *G) alias(k Term, z string) Term {
+	if g.intn(3) == 1 {
+		return substSelf(k, z)
+	}
+	return k
+}
+
 func (g *G) label() string { return g.labels[g.intn(len(g.labels))] }
 
 func (g *G) pr(k Term) Term {
@@ -227,7 +236,7 @@ func (g *G) canon(t *Ty) Term {
 		return g.pr(g.newCall(y, b.T, g.maker(b.T), nil, &Sel{"self", b.L, y}))
 	case KLolli:
 		y, z := g.fresh("y"), g.fresh("z")
-		return g.pr(&Recv{X: y, Y: z, From: "self", XT: u.L, YT: u.R, K: g.gen([]vr{{y, u.L}}, u.R, 1)})
+		return g.pr(&Recv{X: y, Y: z, From: "self", XT: u.L, YT: u.R, K: g.alias(g.gen([]vr{{y, u.L}}, u.R, 1), z)})
 	case KWith:
 		if t.K == KNamed && t.Name == "srv" {
 			return g.pr(&Call{F: g.srvFunc()})
@@ -241,7 +250,7 @@ func (g *G) canon(t *Ty) Term {
 			} else {
 				k = g.gen(nil, b.T, 1)
 			}
-			bs = append(bs, Branch{b.L, z, b.T, k})
+			bs = append(bs, Branch{b.L, z, b.T, g.alias(k, z)})
 		}
 		return g.pr(&Case{From: "self", Brs: bs})
 	case KDown:
@@ -251,7 +260,7 @@ func (g *G) canon(t *Ty) Term {
 	case KUp:
 		// negative: wait for the client to shift down, then provide at the lower mode
 		x := g.fresh("z")
-		return g.pr(&Shift{X: x, From: "self", XT: u.L, K: g.gen(nil, u.L, 1)})
+		return g.pr(&Shift{X: x, From: "self", XT: u.L, K: g.alias(g.gen(nil, u.L, 1), x)})
 	}
 	panic("canon")
 }
@@ -462,7 +471,7 @@ func (g *G) gen(ctx []vr, a *Ty, fuel int) Term {
 	case KLolli:
 		acts = append(acts, func() Term {
 			y, z := g.fresh("y"), g.fresh("z")
-			return &Recv{X: y, Y: z, From: "self", XT: u.L, YT: u.R, K: g.gen(with(ctx, vr{y, u.L}), u.R, fuel-1)}
+			return &Recv{X: y, Y: z, From: "self", XT: u.L, YT: u.R, K: g.alias(g.gen(with(ctx, vr{y, u.L}), u.R, fuel-1), z)}
 		})
 	case KWith:
 		if !(a.K == KNamed && a.Name == "srv") {
@@ -470,7 +479,7 @@ func (g *G) gen(ctx []vr, a *Ty, fuel int) Term {
 				var bs []Branch
 				for _, b := range u.Brs {
 					z := g.fresh("z")
-					bs = append(bs, Branch{b.L, z, b.T, g.gen(with(ctx), b.T, fuel-2)})
+					bs = append(bs, Branch{b.L, z, b.T, g.alias(g.gen(with(ctx), b.T, fuel-2), z)})
 				}
 				return &Case{From: "self", Brs: bs}
 			})
